@@ -19,6 +19,7 @@ import (
 // rule needs to look inside).
 func Normalize(p *core.Program) {
 	curProg = p
+	normalizeSingleExit(p)
 	normalizeRunUnder(p)
 	normalizeLayoutTables(p)
 	normalizeMonitors(p)
